@@ -24,6 +24,8 @@
 #include <tuple>
 #endif
 
+#include <sys/resource.h>
+#include <new>
 namespace hx {
 #ifdef HX_SYM
 typedef symx::sym scalar;
@@ -101,6 +103,13 @@ inline void prove(const std::string &name, const F &f) { st().dbl_obligations++;
 inline void prove_all(const std::string &name, const std::vector<F> &fs) { for (size_t i=0;i<fs.size();++i) prove(name+"["+std::to_string(i)+"]",fs[i]); }
 inline void require(const std::string &name, bool ok, const std::string &detail="") { st().dbl_obligations++; if (!ok) fail_concrete(name,detail); }
 #endif
+inline scalar sabs(scalar x) {
+#ifdef HX_SYM
+    return symx::abs(x);
+#else
+    return std::fabs(x);
+#endif
+}
 struct outside_precondition {};
 // stated precondition of a property: assumed on symbolic paths; a concrete point violating it is skipped
 inline void assume(const F &f) {
@@ -142,7 +151,7 @@ inline bool same_handle(scalar a, scalar b) {
 #endif
 }
 
-struct CaseOptions { size_t max_paths=64, max_depth=60; bool check_reach=true; };
+struct CaseOptions { size_t max_paths=64, max_depth=60; bool check_reach=true; size_t max_undecided=2; double budget_s=40; };
 // run one named case (subject to sharding / --case filter)
 template<class Body> inline void run_case(const std::string &name, Body body, const CaseOptions &co=CaseOptions()) {
     State &s=st(); size_t idx=s.case_idx++;
@@ -152,24 +161,32 @@ template<class Body> inline void run_case(const std::string &name, Body body, co
     s.current_case=name; s.cases_run++; if (s.case_names.size()<4) s.case_names.push_back(name);
     auto guarded=[&]() {
         try { body(); }
+        catch (const std::bad_alloc &) {
+#ifdef HX_SYM
+            throw symx::blowup("harness memory budget (6 GB address space) exhausted");
+#else
+            throw;
+#endif
+        }
         catch (const outside_precondition &) { st().counters["concrete points outside the stated precondition (skipped)"]++; }
         catch (const std::exception &e) { require("no unexpected exception", false, std::string("uncaught std::exception: ")+e.what()); }
     };
 #ifdef HX_SYM
     if (!concrete()) { symx::Report &r=symx::report(); size_t v0=r.violations.size(), i0=r.inconclusive.size();
-        symx::Options o; o.max_paths=co.max_paths; o.max_depth=co.max_depth; o.check_reach=co.check_reach;
+        symx::Options o; o.max_paths=co.max_paths; o.max_depth=co.max_depth; o.check_reach=co.check_reach; o.max_undecided = thorough() ? co.max_undecided*4 : co.max_undecided; o.budget_s = thorough() ? co.budget_s*6 : co.budget_s;
         symx::explore(name,guarded,o);
         for (size_t i=v0;i<r.violations.size();++i) r.violations[i].casename=name;
         for (size_t i=i0;i<r.inconclusive.size();++i) r.inconclusive[i]=name+": "+r.inconclusive[i];
         return; }
     { symx::Ctx &c=symx::ctx(); c.reset_path(); c.prefix.clear(); c.work.clear(); c.concrete_mode=true; c.havocs.clear(); c.havoc_of_var.clear(); c.havoc_raw.clear(); c.nhavoc=0; c.havoc_div=false; c.stage=name;
-      try { guarded(); } catch (const symx::engine_stop &e) { fail_concrete("engine stop", e.why); } }
+      try { guarded(); } catch (const symx::engine_stop &e) { if (args().replay.empty()) st().counters["concrete validation points with exact breakdown (skipped): "+e.why]++; else fail_concrete("engine stop", e.why); } }
 #else
     guarded();
 #endif
 }
 
 inline void parse_args(int argc, char **argv) { Args &a=args();
+    { struct rlimit rl; rl.rlim_cur=rl.rlim_max=(rlim_t)6<<30; setrlimit(RLIMIT_AS,&rl); }
     for (int i=1;i<argc;++i) { std::string k=argv[i]; auto nxt=[&]() { if (i+1>=argc) { std::cerr<<"missing value for "<<k<<"\n"; exit(2); } return std::string(argv[++i]); };
         if (k=="--tier") a.tier=nxt(); else if (k=="--seed") a.seed=atol(nxt().c_str()); else if (k=="--shard") { std::string s=nxt(); a.shard_i=atoi(s.c_str()); a.shard_n=atoi(s.substr(s.find('/')+1).c_str()); }
         else if (k=="--mode") a.mode=nxt(); else if (k=="--out") a.out=nxt(); else if (k=="--case") a.only_case=nxt(); else if (k=="--list") a.list=true;
@@ -205,7 +222,7 @@ inline int finish() { State &s=st(); if (args().list) return 0; std::ostringstre
 #ifdef HX_SYM
     { symx::Report &r=symx::report(); symx::Ctx &c=symx::ctx();
       o<<",\"obligations\":"<<r.obligations<<",\"discharged\":"<<r.discharged<<",\"trivial\":"<<r.trivial<<",\"queries\":"<<r.queries<<",\"q_unsat\":"<<r.q_unsat<<",\"q_sat\":"<<r.q_sat<<",\"q_unknown\":"<<r.q_unknown
-       <<",\"solver_errors\":"<<r.solver_errors<<",\"last_error\":\""<<jesc(r.last_error)<<"\",\"solver_s\":"<<symx::solver().total_s<<",\"paths\":"<<r.paths<<",\"paths_pruned\":"<<r.paths_pruned<<",\"paths_unexplored\":"<<r.paths_unexplored<<",\"paths_stopped\":"<<r.paths_stopped
+       <<",\"solver_errors\":"<<r.solver_errors<<",\"last_error\":\""<<jesc(r.last_error)<<"\",\"solver_s\":"<<symx::solver().total_s<<",\"paths\":"<<r.paths<<",\"paths_pruned\":"<<r.paths_pruned<<",\"paths_unexplored\":"<<r.paths_unexplored<<",\"paths_undecided_skipped\":"<<r.paths_undecided_skipped<<",\"paths_stopped\":"<<r.paths_stopped
        <<",\"reach_sat\":"<<r.reach_sat<<",\"reach_unsat\":"<<r.reach_unsat<<",\"reach_unknown\":"<<r.reach_unknown<<",\"witness_unknown\":"<<r.witness_unknown<<",\"forks\":"<<c.nforks_total<<",\"max_query_bytes\":"<<r.max_query_bytes
        <<",\"nf_checks\":"<<c.nf_checks<<",\"nf_mismatch\":"<<c.nf_mismatch<<",\"nf_skipped\":"<<c.nf_skipped<<",\"terms\":{\"raw\":"<<c.rn.size()<<",\"vals\":"<<c.vals.size()<<",\"polys\":"<<c.polys.size()<<",\"atoms\":"<<c.atoms.size()<<"}";
       o<<",\"stops\":{"; { bool f=true; for (auto &kv : r.stops) { o<<(f?"":",")<<"\""<<jesc(kv.first)<<"\":"<<kv.second; f=false; } } o<<"}";
@@ -241,7 +258,7 @@ inline Pattern random_sym_pattern(int n, Rng &r, int extra) { std::vector<std::s
     Pattern p; p.n=p.m=n; p.ptr.push_back(0); for (int i=0;i<n;++i) { for (int c : rows[i]) p.col.push_back(c); p.ptr.push_back(p.col.size()); } p.name="randsym"+std::to_string(n)+"_"+std::to_string(r.next()%100000); return p; }
 
 template<class T> struct Crs { int n, m; std::vector<ptrdiff_t> ptr, col; std::vector<T> val;
-    T at(int i, int j) const { T s=T(0); for (ptrdiff_t k=ptr[i];k<ptr[i+1];++k) if (col[k]==j) s=s+val[k]; return s; }
+    T at(int i, int j) const { T s=T(0); bool first=true; for (ptrdiff_t k=ptr[i];k<ptr[i+1];++k) if (col[k]==j) { s = first ? val[k] : s+val[k]; first=false; } return s; }
     std::vector<std::vector<T>> dense() const { std::vector<std::vector<T>> d(n,std::vector<T>(m,T(0))); for (int i=0;i<n;++i) for (ptrdiff_t k=ptr[i];k<ptr[i+1];++k) d[i][col[k]]=d[i][col[k]]+val[k]; return d; } };
 typedef Crs<scalar> SCrs;
 // fully symbolic values on a pattern; hints make the default witness a diagonally dominant M-matrix
